@@ -1637,3 +1637,137 @@ def ws_order_obs(summaries, exempt):
                 if cur is None or (cur["ok"] and not ok):
                     obs[key] = {"rule": "R-WS-ORDER", "key": key, "ok": ok, "site": where_site, "detail": detail, "n": 1}
     return list(obs.values()), nruns
+
+
+# -- R-FRAME-BALANCE: pending-statement frames and the macro nesting level are opened/closed only by their keywords --
+FRAME_KW = {"KwmDo": (1, 0), "KwmEnd": (-1, 0), "KwmMacro": (1, 1), "KwmMend": (-1, -1)}
+
+
+def _nest_delta(e):
+    """+1 / -1 / None (unknown) for a write of macro_nesting_level."""
+    r = repr(e.d.get("new").key()) if hasattr(e.d.get("new"), "key") else ""
+    o = repr(e.d.get("old").key()) if hasattr(e.d.get("old"), "key") else "?"
+    if o in r:
+        if "bin:Add" in r and "('C', 'int', 1)" in r:
+            return 1
+        if ("saturating_sub" in r or "bin:Sub" in r or "wrapping_sub" in r or "checked_sub" in r) and "('C', 'int', 1)" in r:
+            return -1
+    return None
+
+
+def frame_summary(I, mode, outs):
+    """Per lex_token path: (frames pushed - frames popped, nesting delta) and the frame keywords it emits.
+    A frame pop is counted at the call of pop_pending_stat (its `len > 1` guard is R-9XXX's business)."""
+    res = {"mode": mode, "kw": {}, "mode_deltas": [], "other": [], "macrodo_pushed_by": []}
+    for o in outs:
+        if o.kind != "ret":
+            continue
+        st = o.st
+        dp = dn = 0
+        unknown = False
+        kws = set()
+        for e in st.events:
+            if e.kind == "enter" and e.callee == "Lexer::push_pending_stat":
+                dp += 1
+            elif e.kind == "enter" and e.callee == "Lexer::pop_pending_stat":
+                dp -= 1
+            elif e.kind == "pending" and e.d.get("op") in ("push", "pop") and e.fn not in (
+                    "Lexer::push_pending_stat", "Lexer::pop_pending_stat", "Lexer::pending_stat", "Lexer::set_pending_stat"):
+                dp += 1 if e.d.get("op") == "push" else -1
+            elif e.kind == "nesting":
+                d = _nest_delta(e)
+                if d is None:
+                    unknown = True
+                else:
+                    dn += d
+            elif e.kind == "emit":
+                ts = variant_set(I, st, e.d["type"]) or set()
+                if len(ts) == 1 and next(iter(ts)) in FRAME_KW:
+                    kws.add(next(iter(ts)))
+            elif e.kind == "push":
+                m = e.d.get("mode")
+                if isinstance(m, Enum) and m.variant == "MacroDo":
+                    res["macrodo_pushed_by"].append(sorted(kws))
+        site = ""
+        for e in st.events:
+            if e.kind == "arm" and e.fn not in ("Lexer::lex_token", "Lexer::mode") and not e.d["match"].get("exp"):
+                site = "%s|%s" % (short_fn(e.fn), pat_text(e.d["match"]["arms"][e.d["arm"]]["pat"]))
+                break
+        rec = [dp, dn, unknown, site, "; ".join(st.conds[-3:])[:160]]
+        for e in st.events:
+            if e.kind == "pending" and e.d.get("op") == "pop":
+                res.setdefault("pops", []).append([bool(e.d.get("guarded")), short_fn(e.fn), F.file_line(e.site or "?")])
+        if kws:
+            for k in kws:
+                res["kw"].setdefault(k, []).append(rec)
+            if len(kws) > 1:
+                res["other"].append(rec + ["emits %s in one step" % sorted(kws)])
+        elif mode == "MacroDo":
+            res["mode_deltas"].append(rec)
+        elif dp or dn or unknown:
+            res["other"].append(rec + ["frame / nesting change outside the frame keywords"])
+    return res
+
+
+def frame_balance_obs(summaries):
+    """Frames: a %do may open its frame in the keyword step or in the MacroDo step that follows it; `owed` (0/1) is
+    what the keyword step leaves to the MacroDo step and must be the same on every keyword path.  Then
+      other modes, keyword K   : frames = want(K)            (K = %do: 1 - owed)
+      MacroDo, no keyword      : frames = owed
+      MacroDo, keyword K       : frames = owed + want(K)     (K = nested %do: owed + 1 - owed = 1)
+    and the nesting level changes only with %macro / %mend."""
+    obs = {}
+
+    def ob(key, ok, detail, site=""):
+        cur = obs.get(key)
+        if cur is None or (cur["ok"] and not ok):
+            obs[key] = {"rule": "R-FRAME-BALANCE", "key": key, "ok": ok, "site": site, "detail": detail, "n": 1, "modes": []}
+    n = 0
+    owed_set = set()
+    for s in summaries:
+        if s["mode"] != "MacroDo":
+            for rec in s["kw"].get("KwmDo", []):
+                owed_set.add(1 - rec[0])
+    owed = next(iter(owed_set)) if len(owed_set) == 1 else None
+    ob("KwmDo|keyword-step", owed in (0, 1), "the %%do keyword step opens %d frame(s) on every path (the MacroDo step owes %d)" % (1 - (owed or 0), owed or 0)
+       if owed in (0, 1) else "the %%do keyword step does not open the same number of frames on every path (%s)" % sorted(1 - o for o in owed_set))
+    seen_kw = set()
+    for s in summaries:
+        md = s["mode"] == "MacroDo"
+        base = (owed or 0) if md else 0
+        for k, recs in s["kw"].items():
+            seen_kw.add(k)
+            for rec in recs:
+                n += 1
+                wf, wn = FRAME_KW[k]
+                if k == "KwmDo":
+                    wf = 1 - (owed or 0)
+                want = (base + wf, wn)
+                ok = (rec[0], rec[1]) == want and not rec[2]
+                ob("%s|%s" % (k, rec[3]), ok,
+                   "%s changes frames by %+d and nesting by %+d%s" % (k, want[0], want[1], " (incl. the frame owed by the enclosing %do)" if md and owed else "") if ok else
+                   "%s on path %s (mode %s) changes frames by %+d and nesting by %+d, expected %+d/%+d: frames opened and closed by "
+                   "%%do/%%end, %%macro/%%mend no longer pair up; conditions: %s" % (k, rec[3], s["mode"], rec[0], rec[1], want[0], want[1], rec[4]))
+        for rec in s["mode_deltas"]:
+            n += 1
+            ok = (rec[0], rec[1]) == (base, 0) and not rec[2]
+            ob("MacroDo|%s" % rec[3], ok,
+               "the MacroDo step opens the %d frame(s) the %%do keyword step left to it" % base if ok else
+               "MacroDo path %s changes frames by %+d and nesting by %+d, but the %%do keyword step left %d frame(s) to open: the "
+               "matching %%end restores a frame that was never saved (or one leaks); conditions: %s" % (rec[3], rec[0], rec[1], base, rec[4]))
+        for rec in s["other"]:
+            ob("other|%s|%s" % (s["mode"], rec[3]), False,
+               "mode %s, %s: %s (frames %+d, nesting %+d%s); conditions: %s" % (s["mode"], rec[3], rec[5], rec[0], rec[1], ", unknown nesting write" if rec[2] else "", rec[4]))
+        for by in s["macrodo_pushed_by"]:
+            ob("MacroDo-pushed-by-%do", by == ["KwmDo"], "the MacroDo mode is pushed only by the step that emits %do" if by == ["KwmDo"] else
+               "MacroDo is pushed on a step that emits %s" % by)
+        ob("paths|%s" % s["mode"], True, "no other path of mode %s touches frames or the nesting level" % s["mode"])
+        for guarded, fn, site in s.get("pops", []):
+            ob("bottom-frame|%s" % fn, guarded,
+               "the pop of a pending-statement frame in %s is dominated by a test that at least one frame remains" % fn if guarded else
+               "%s pops a pending-statement frame without establishing that more than one is present: an unmatched %%end / %%mend "
+               "empties the stack (InternalErrorEmptyPendingStatStack 9009, and the open-code flag is lost)" % fn, site)
+    for k in FRAME_KW:
+        if k not in seen_kw:
+            ob("%s|anchor" % k, False, "no lex_token path emits %s" % k)
+    return list(obs.values()), n
